@@ -346,11 +346,15 @@ def queue_on_completion(ctx, rule):
     n = 0
     for lf in lv:
         rr = False
+        rr_bb = None
         for (t, c, _b) in lf.conds:
             if t[0] == "discr" and any(isinstance(s, tuple) and s and s[0] == "field" and s[3] == "state" and s[2] == conn.HC for s in subterms(t)) and c == ("eq", d["RequestReady"]):
                 rr = True
+                rr_bb = _b
         if not rr:
             continue
+        if lf.kind == "loop" and rr_bb in lf.trace and lf.bb in lf.trace[:-1] and lf.trace.index(lf.bb) > lf.trace.index(rr_bb):
+            continue        # cut at the back edge of a loop *inside* the arm (items moved one by one): the paths that leave that loop are the ones inspected
         n += 1
         pb = [e for e in lf.events if e[0] == "call" and "VecDeque" in e[3] and last_seg(e[3]) == "push_back" and self_field(e[4][2][0], "parsed_requests")]
         ctx.ob(rule, "request-ready-pushes", len(pb) == 1, "the RequestReady arm pushes the completed request onto self.parsed_requests in the same iteration (pushes: %d)" % len(pb), fn.loc(lf.bb))
